@@ -38,6 +38,8 @@ func isCallTo(v ssa.Value, id string) *ssa.Call {
 }
 
 func checkC01(p *load.Program, r *kit.Report) {
+	importRules(p, r, "C11", "Clean saves a side branch and prunes it from memory: what the repository reports for pruned heights afterwards is what Branch.Save wrote", 2,
+		func(o *kit.Obligation) bool { return strings.HasPrefix(o.Construct, "Branch.Save") }, "MERGE-SHAPE")
 	r.NotDecided = "that the tree built by a particular history has the cumulative work a model assigns; arrival-order independence; the effect of Clean/Save/Load in between (C10/C11); numerical work values."
 	r.Rule("ARGMAX", "Branches.Longest replaces the incumbent exactly on the edge where the candidate's Last().AccumulatedWork compares greater (or greater-or-equal) through (*big.Int).Cmp; the incumbent is kept otherwise", 1)
 	r.Rule("WRITERS", "every store to Repository.longest takes its value from Branches.Longest(), from a root branch built by NewBranch(nil, …) or from Consolidate() of the previous longest", 7)
